@@ -174,6 +174,40 @@ def seeded(args):
     return 1 if failures else 0
 
 
+def refactors(args):
+    """Behaviour-preserving changes (written independently): every check must stay quiet."""
+    base = os.path.join(core.VERIF_DIR, "refactors")
+    ids = [a for a in args if not a.startswith("--")]
+    rows = []
+    failures = 0
+    for rid in sorted(os.listdir(base)) if os.path.isdir(base) else []:
+        if ids and rid not in ids:
+            continue
+        patch_p = os.path.join(base, rid, "patch.diff")
+        d = _scratch_copy(rid)
+        try:
+            p = subprocess.run(["patch", "-p1", "-s", "-i", patch_p], cwd=d, stdout=subprocess.PIPE,
+                               stderr=subprocess.STDOUT, text=True)
+            if p.returncode != 0:
+                rows.append((rid, "-", "patch does not apply: " + p.stdout[:100]))
+                continue
+            for prop in PROPS:
+                t0 = time.time()
+                rc, out = _run_check(prop, 0, {"VERIF_REPO": d, "VERIF_OUT": d + "/out"}, scale="1")
+                viol = [ln for ln in out.splitlines() if ln.startswith("violation detail")]
+                ok = rc == 0
+                if not ok:
+                    failures += 1
+                rows.append((rid, prop, f"{'quiet' if ok else 'ALARM/ERROR'} rc={rc} {time.time() - t0:.0f}s :: "
+                             f"{(viol[0][:260] if viol else out.strip().splitlines()[-1][:160])}"))
+        finally:
+            shutil.rmtree(d, ignore_errors=True)
+    for r in rows:
+        print("%-12s %-4s %s" % r)
+    print(f"refactors: {len(rows)} runs, {failures} alarms")
+    return 1 if failures else 0
+
+
 def main(args):
     if not args:
         print(__doc__)
@@ -184,5 +218,7 @@ def main(args):
         return sensitivity(args[1:])
     if args[0] == "seeded":
         return seeded(args[1:])
+    if args[0] == "refactors":
+        return refactors(args[1:])
     print(__doc__)
     return 2
